@@ -9,6 +9,10 @@ import (
 	"github.com/github/go-pipe/pipe"
 )
 
+// maxRevListLineLength is the longest line of `git rev-list --objects`
+// output (an OID followed by a path) that we are prepared to read.
+const maxRevListLineLength = 1 << 30
+
 // ObjectIter iterates over objects in a Git repository.
 type ObjectIter struct {
 	ctx      context.Context
@@ -65,8 +69,18 @@ func (repo *Repository) NewObjectIter(ctx context.Context) (*ObjectIter, error) 
 
 		// Read the output of `git rev-list --objects`, strip off any
 		// trailing information, and write the OIDs to `git cat-file`:
-		pipe.LinewiseFunction(
+		//
+		// Note that `pipe.LinewiseFunction()` cannot be used here,
+		// because it refuses lines longer than 64 kiB, and the path
+		// that follows the OID can be longer than that.
+		pipe.ScannerFunction(
 			"copy-oids",
+			func(r io.Reader) (pipe.Scanner, error) {
+				scanner := bufio.NewScanner(r)
+				scanner.Buffer(nil, maxRevListLineLength)
+				scanner.Split(pipe.ScanLFTerminatedLines)
+				return scanner, nil
+			},
 			func(_ context.Context, _ pipe.Env, line []byte, stdout *bufio.Writer) error {
 				if len(line) < 40 {
 					return fmt.Errorf("line too short: '%s'", line)
